@@ -7,7 +7,7 @@ loc=$(python3 - "$dir/meta.json" <<'PY'
 import json,sys,re
 m=json.load(open(sys.argv[1]))
 t=json.dumps(m)
-r=re.search(r'(chess-[a-z]+|tracing-enabled)/tests/[a-z_0-9]+\.rs',t)
+r=re.search(r'(chess-[a-z-]+|tracing-enabled)/tests/[a-z_0-9]+\.rs',t)
 print(r.group(0) if r else 'chess-movegen/tests/demo.rs')
 PY
 )
